@@ -351,9 +351,19 @@ pub mod arbitrary_precision_option {
     where
         D: serde::de::Deserializer<'de>,
     {
-        Option::<serde_json::Number>::deserialize(deserializer)?
-                                     .map(|num| num.as_str().parse().map_err(serde::de::Error::custom))
-                                     .transpose()
+        let n: Option<BigDecimal> =
+            Option::<serde_json::Number>::deserialize(deserializer)?
+                                         .map(|num| num.as_str().parse().map_err(serde::de::Error::custom))
+                                         .transpose()?;
+
+        // same exponent limit as the non-optional adapter
+        match n {
+            Some(ref d) if d.scale.abs() > SERDE_SCALE_LIMIT && SERDE_SCALE_LIMIT > 0 => {
+                let msg = format!("Calculated exponent '{}' out of bounds", -d.scale);
+                Err(serde::de::Error::custom(msg))
+            }
+            _ => Ok(n),
+        }
     }
 
     pub fn serialize<S>(value: &Option<BigDecimal>, serializer: S) -> Result<S::Ok, S::Error>
